@@ -54,9 +54,16 @@ SigKinds     == Genuine \cup Forged
 Stored(sig) == IF sig = "upper" THEN "valid" ELSE sig
 
 VestKinds == {"vest1", "vest2", "vest3"}   \* MsgCreateVestingAccount, ..Periodic.., ..PermanentLocked..
-(* routes of a vesting-creation message: top-level; nested in d MsgExec; as the subject of a MsgGrant (generic
-   authorisation for its type); in the same transaction right after the submission of the proof *)
-Routes == {"top", "exec1", "exec2", "exec3", "exec4", "grant", "sametx"}
+(* routes of a vesting-creation message: top-level; nested in d MsgExec (alone, or after harmless siblings); as the
+   subject of a MsgGrant (generic authorisation for its type); in the same transaction right after the submission of
+   the proof *)
+(* sibling routes "sib_<pre>_<outer>_<d>": the creation message nested in d MsgExec (d = 1..3) is listed AFTER harmless
+   siblings - pre = "s": a plain send; "x": a MsgExec{send}; "sx": both - at top level (outer = 0) or all of them
+   inside one outer MsgExec (outer = 1).  A screening that stops at the first MsgExec, or at the first harmless
+   message, lets exactly these through. *)
+SibRoutes    == {"sib_" \o p \o "_" \o u \o "_" \o d : p \in {"s", "x", "sx"}, u \in {"0", "1"}, d \in {"1", "2", "3"}}
+NestedRoutes == {"exec1", "exec2", "exec3", "exec4"} \cup SibRoutes
+Routes == {"top", "grant", "sametx"} \cup NestedRoutes
 
 Outcomes == {"refused", "failed", "ok"}
 
@@ -88,7 +95,7 @@ SubmitOutcomes(st, o) ==
   ELSE SubmitRegular(st, o)
 
 CreateOutcomes(st, o) ==
-  IF o.route \in {"exec1", "exec2", "exec3", "exec4", "grant"} THEN {"refused"}   \* P (and C07): never nested, never granted
+  IF o.route \in NestedRoutes \cup {"grant"} THEN {"refused"}   \* P (and C07): never nested (wherever in the message tree), never granted
   ELSE IF st.proof[o.to] = "none" THEN {"refused"}           \* P: "only for an address that already has a stored proof"
   ELSE IF o.route = "sametx" THEN {"failed", "refused"}       \* the proof exists, so the submission riding in the same tx fails
   ELSE IF st.kind[o.to] # "none" THEN {"failed", "refused"}   \* D (SDK x/auth/vesting): the target account must not exist yet
